@@ -22,7 +22,8 @@ def replay(d):
     from t2incons import t2incon, t2blockincon
     sh = d['shape']
     inc = t2incon()
-    if sh['perm'] or sh.get('toughreact'): inc.simulator = 'TOUGHREACT'
+    anyperm = any(sh['perm']) if isinstance(sh['perm'], list) else sh['perm']
+    if anyperm or sh.get('toughreact'): inc.simulator = 'TOUGHREACT'
     for b in d['blocks']:
         perm = None if b['permeability'] is None else np.array(num(b['permeability']))
         inc[b['name']] = t2blockincon(num(b['variables']), b['name'], num(b['porosity']), perm, b['nseq'], b['nadd'])
